@@ -136,7 +136,17 @@ class Generated(Facet):
         finally:
             mat.cleanup()
 
-    def _run(self, spec, mat, rec):
+    def _run(self, spec, mat, rec, second=True):
+        if second and hasattr(mat, "considered") and len(spec["abstracts"]) >= 2:
+            # the same classes used for another grammar first (another start symbol): the analysis of
+            # the grammar judged below must not depend on what was extracted from the classes before
+            try:
+                from geneticengine.grammar.grammar import extract_grammar
+
+                other = mat.classes[spec["abstracts"][-1]["name"]]
+                extract_grammar(mat.considered(), other, spec.get("expansion", False)).usable_grammar()
+            except Exception:  # noqa: BLE001
+                pass
         info = SpecInfo(spec, mat.classes)
         try:
             g = mat.grammar()
